@@ -42,5 +42,5 @@ fn c04_page_number_codec_order() {
     assert!(r1.end <= r2.start || r2.end <= r1.start, "distinct blocks of one order never overlap");
     let base = 512 + u64::from(region) * region_size;
     assert!(r1.start >= base && r1.end <= base + region_size, "inside its region");
-    kani::cover!(order == 20, "maximal order");
+    kani::cover!(order == 19, "large order");
 }
